@@ -2,7 +2,7 @@
 //! the three functions every Vec / String / Box / Bytes allocation of the crate goes through -- are
 //! replaced by these: each asserts the requested size against the limit the harness set, adds it
 //! to a running total, and then really allocates through the system allocator model.
-use std::alloc::{GlobalAlloc, Layout, System};
+use std::alloc::Layout;
 
 static mut LIMIT: usize = usize::MAX;
 static mut TOTAL: usize = 0;
@@ -30,15 +30,32 @@ fn record(size: usize) {
     }
 }
 
+// The stubs allocate exactly the way Kani's own models of __rust_alloc / __rust_alloc_zeroed /
+// __rust_realloc do (kani_lib.c: malloc, calloc(1, size), malloc + memcpy + free), so that the
+// memory model -- and what __rust_dealloc later checks about object sizes -- is the one of the
+// un-stubbed program. (Going through std's `System` allocator instead made the verdict of one
+// harness depend on the directory the crate under test was built from.)
+extern "C" {
+    fn malloc(size: usize) -> *mut u8;
+    fn calloc(n: usize, size: usize) -> *mut u8;
+    fn free(p: *mut u8);
+}
+
 pub unsafe fn alloc_stub(layout: Layout) -> *mut u8 {
     record(layout.size());
-    System.alloc(layout)
+    malloc(layout.size())
 }
 pub unsafe fn alloc_zeroed_stub(layout: Layout) -> *mut u8 {
     record(layout.size());
-    System.alloc_zeroed(layout)
+    calloc(1, layout.size())
 }
 pub unsafe fn realloc_stub(ptr: *mut u8, layout: Layout, new_size: usize) -> *mut u8 {
     record(new_size);
-    System.realloc(ptr, layout, new_size)
+    let result = malloc(new_size);
+    if !result.is_null() {
+        let n = if new_size < layout.size() { new_size } else { layout.size() };
+        std::ptr::copy_nonoverlapping(ptr, result, n);
+        free(ptr);
+    }
+    result
 }
